@@ -481,6 +481,19 @@ func c18Precedence(c *pure.Ctx) {
 							c.Violate("pod-nondeterministic", fmt.Sprintf("%s: repeated NewPod differs: %q vs %q", desc, first, got), "nested-var-in-value")
 							break
 						}
+						// Another attempt built from the same in-memory Job in between must get its own values
+						// and must not disturb this one (the template is shared by reference).
+						if rep == 0 {
+							other, err := podtaskexecutor.NewPod(rj, tmpl, tasks.TaskIndex{Retry: 1, Parallel: parallel.GetDefaultIndex()})
+							if err != nil {
+								c.Violate("newpod-error", desc+": "+err.Error())
+								break
+							}
+							if a := strings.Join(other.Spec.Containers[0].Args, " ; "); !strings.Contains(a, "retry=1") {
+								c.Violate("task-context-leaks", fmt.Sprintf("%s: the pod for retry 1 built after the pod for retry 0 has args %q", desc, a))
+								break
+							}
+						}
 					}
 				}
 			}
